@@ -83,10 +83,10 @@ func check(c *c07case) string {
 	// property (C17 requires the choice to be deterministic): the result must
 	// be one of the file's CMaps.  If a name occurs twice, the later
 	// definition replaces the earlier one.
-	got, _ := d["CMapName"].(postscript.Name)
+	gotName, _ := d["CMapName"].(postscript.Name)
 	var m *cmapref.CMap
 	for _, x := range c.CMaps {
-		if x.Name == string(got) {
+		if x.Name == string(gotName) {
 			m = x
 		}
 	}
